@@ -1,3 +1,39 @@
 import B6.Driver.Common
-/-! Driver for C35 — stub (the check for this property is not built yet). -/
-def main : IO Unit := B6.Driver.run { σ := Unit, init := (), step := fun s _ _ => (s, .bad) }
+import B6.Model.Locksets
+/-!
+Driver for C35 (exploration).  One line per workload run in the race-detector worker:
+
+  workload build-basic|build-compact cores=K n=N cw=C seed=S      => ok | mismatch:<query> | race | fatal | hang | crash
+  workload query-basic|query-compact|query-overlay g=G n=N q=Q seed=S  => (same)
+
+The model's answer is always `ok`: the lock-discipline theorems (`B6.Props.C35`) say the cache cells are
+race-free and transparent, the stage theorem that the two-stage `Finish` has no conflicting workers, so a
+parallel build equals the sequential one and every concurrent query answers what it answers alone.  The
+predicate on the implementation's answer: no data-race report (`data-race`), every concurrent answer equal to
+the sequential one (`concurrent-answer-differs`), the run ends (`hang`) and does not die (`crash`).
+-/
+open B6.Driver
+namespace B6.Driver.C35
+
+def knownWorkloads : List String :=
+  ["build-basic", "build-compact", "query-basic", "query-compact", "query-overlay"]
+
+def wellFormed (ws : List String) : Bool :=
+  match ws with
+  | "workload" :: kind :: rest =>
+    knownWorkloads.contains kind && rest.all (fun w => (w.splitOn "=").length == 2) && rest.length ≥ 3
+  | _ => false
+
+def step (_ : Unit) (op impl : String) : Unit × Verdict :=
+  if !wellFormed (words op) then ((), .bad) else
+  if impl == "ok" then ((), .ok)
+  else if impl == "race" then ((), .propfail "data-race")
+  else if impl.startsWith "mismatch:" then ((), .propfail ("concurrent-answer-differs " ++ sdrop impl 9))
+  else if impl == "hang" then ((), .propfail "hang")
+  else ((), .propfail ("crash:" ++ impl))
+
+def family : Family := { σ := Unit, init := (), step := step }
+
+end B6.Driver.C35
+
+def main : IO Unit := B6.Driver.run B6.Driver.C35.family
